@@ -37,7 +37,9 @@ class Config(collections.namedtuple('Config', 'impl hashseed iro asan')):
             e['ZOPE_INTERFACE_STRICT_IRO'] = '1'
         elif self.iro == 'legacy':
             e['ZOPE_INTERFACE_USE_LEGACY_IRO'] = '1'
-        if self.asan:
+        if self.asan == 'valgrind':
+            e['PYTHONMALLOC'] = 'malloc'
+        elif self.asan:
             e['LD_PRELOAD'] = build.ASAN_RT
             e['ASAN_OPTIONS'] = 'detect_leaks=0:abort_on_error=1:handle_segv=0'
             e['PYTHONMALLOC'] = 'malloc'
@@ -45,7 +47,8 @@ class Config(collections.namedtuple('Config', 'impl hashseed iro asan')):
         return e
 
     def label(self):
-        return '%s/h%s/%s%s' % (self.impl, self.hashseed, self.iro, '/asan' if self.asan else '')
+        return '%s/h%s/%s%s' % (self.impl, self.hashseed, self.iro,
+                                '/valgrind' if self.asan == 'valgrind' else '/asan' if self.asan else '')
 
     def as_dict(self):
         return {'impl': self.impl, 'hashseed': self.hashseed, 'iro': self.iro, 'asan': self.asan}
@@ -66,7 +69,12 @@ class Worker:
         os.makedirs(logdir, exist_ok=True)
         self.errpath = os.path.join(logdir, 'worker-%d-%d.err' % (os.getpid(), id(self)))
         self.err = open(self.errpath, 'wb')
-        self.p = subprocess.Popen([build.PYTHON, '-m', 'zisim.worker', snapshot],
+        cmd = [build.PYTHON, '-m', 'zisim.worker', snapshot]
+        if config.asan == 'valgrind':
+            # memcheck sees every access, also those libpython makes on behalf of the extension; a forked run that
+            # touches freed or uninitialised memory exits at once with status 97 and is reported as a crash
+            cmd = ['valgrind', '-q', '--error-exitcode=97', '--exit-on-first-error=yes', '--child-silent-after-fork=no'] + cmd
+        self.p = subprocess.Popen(cmd,
                                   stdin=subprocess.PIPE, stdout=subprocess.PIPE, stderr=self.err,
                                   env=config.env(), cwd=VERIF, text=True, bufsize=1)
         line = self.p.stdout.readline()
@@ -136,7 +144,7 @@ class Pool:
             if lst:
                 return lst.pop()
         snap = self.snapshot
-        if config.asan:
+        if config.asan and config.asan != 'valgrind':
             if self.asan_snapshot is None:
                 self.asan_snapshot = build.snapshot(asan=True)
             snap = self.asan_snapshot
